@@ -186,14 +186,14 @@ class TermEval:
         return ("unknown", "%s#%d" % (tag, self._ctr))
 
     # ---- paths
-    def paths(self, body, start=0, stop_blocks=None, max_paths=MAX_PATHS, loop_once=True):
+    def paths(self, body, start=0, stop_blocks=None, max_paths=MAX_PATHS, loop_once=True, max_visits=1):
         """acyclic normal paths from `start` to return blocks (or to a block in stop_blocks).
         A back edge is followed at most zero times (loop bodies are entered once, then the path must leave)."""
         g = cfg_of(body)
         out = []
         stop_blocks = set(stop_blocks or ())
 
-        def rec(bb, path, onpath):
+        def rec(bb, path, cnt):
             if len(out) > max_paths:
                 raise TooComplex("%s: more than %d paths" % (body.path, max_paths))
             path = path + [bb]
@@ -205,11 +205,13 @@ class TermEval:
             if not succs:
                 return  # diverges (panic / unreachable)
             for s in succs:
-                if s in onpath:
+                if cnt.get(s, 0) >= max_visits:
                     continue
-                rec(s, path, onpath | {s})
+                c2 = dict(cnt)
+                c2[s] = c2.get(s, 0) + 1
+                rec(s, path, c2)
 
-        rec(start, [], {start})
+        rec(start, [], {start: 1})
         return out
 
     # ---- place / operand evaluation
